@@ -283,10 +283,12 @@ func runJoinOrder(c *core.Ctx) {
 			}
 			cl := mc.Fn.(*ssa.Function)
 			joins := false
+			var joinOps []ssa.Instruction
 			for _, op := range an.ChanOps(cl) {
 				if op.Kind == an.OpRecv {
 					if okj, _ := joinRecv(cl, op); okj {
 						joins = true
+						joinOps = append(joinOps, op.Instr)
 					}
 				}
 			}
@@ -297,6 +299,31 @@ func runJoinOrder(c *core.Ctx) {
 			c.CountSites(1)
 			// a defer of a cancel registered later, dominating every return reachable from here
 			okLater := false
+			// … or the cancel is called in the deferred closure itself, before every join in it
+			// (`defer func() { cancel(); <-done }()`)
+			{
+				var cancels []ssa.Instruction
+				an.Instrs(cl, func(in3 ssa.Instruction) {
+					if call, ok := in3.(*ssa.Call); ok && cancelOf(call.Call.Value) != nil {
+						cancels = append(cancels, call)
+					}
+				})
+				inside := len(cancels) > 0
+				for _, j := range joinOps {
+					dominated := false
+					for _, cc := range cancels {
+						if an.InstrDominates(cc, j) {
+							dominated = true
+						}
+					}
+					if !dominated {
+						inside = false
+					}
+				}
+				if inside {
+					okLater = true
+				}
+			}
 			an.Instrs(fn, func(in2 ssa.Instruction) {
 				d2, ok := in2.(*ssa.Defer)
 				if !ok || d2 == d || cancelOf(d2.Call.Value) == nil || !before(d, d2) {
@@ -660,6 +687,50 @@ func runStartEnd(c *core.Ctx) {
 				}
 			}
 		})
+		// … and End is handed the context Start returned (or one derived from it), which carries what
+		// Start attached to it (the Prometheus middleware's session id): not the function's own parameter
+		if mc, isMC := dEnd.Call.Value.(*ssa.MakeClosure); isMC {
+			an.Instrs(mc.Fn.(*ssa.Function), func(in2 ssa.Instruction) {
+				call, ok := in2.(*ssa.Call)
+				if !ok || !isEnd(&call.Call, basePath, an.PathOf) {
+					return
+				}
+				var ctxArg ssa.Value
+				for _, a := range call.Call.Args {
+					if strings.HasSuffix(a.Type().String(), "context.Context") {
+						ctxArg = a
+						break
+					}
+				}
+				if ctxArg == nil {
+					return
+				}
+				fromStart := false
+				v := an.LoadedValue(ctxArg)
+				if u, isU := ctxArg.(*ssa.UnOp); isU {
+					if fv, isFV := u.X.(*ssa.FreeVar); isFV {
+						if cell, isA := an.FreeVarBinding(fv).(*ssa.Alloc); isA {
+							for _, st := range an.StoresTo(cell) {
+								if ex, isEx := st.Val.(*ssa.Extract); isEx && ex.Tuple == ssa.Value(start) && ex.Index == 0 && an.InstrDominates(st, dEnd) {
+									fromStart = true
+								}
+							}
+						}
+					}
+				}
+				if ex, isEx := v.(*ssa.Extract); isEx && ex.Tuple == ssa.Value(start) && ex.Index == 0 {
+					fromStart = true
+				}
+				if fv, isFV := ctxArg.(*ssa.FreeVar); isFV {
+					if ex, isEx := an.FreeVarBinding(fv).(*ssa.Extract); isEx && ex.Tuple == ssa.Value(start) && ex.Index == 0 {
+						fromStart = true
+					}
+				}
+				c.Check(fromStart, props, fname(c, fn), "End(ctx of Start)", P.Pos(call.Pos()),
+					"ServeNostrEnd receives the context ServeNostrStart returned",
+					"ServeNostrEnd is called with "+an.PathOf(ctxArg)+", not with the context ServeNostrStart returned: what Start attached to its context (the session id the Prometheus middleware keys its tables by) does not reach End, so the session's gauge share and table entries are never released")
+			})
+		}
 		c.Check(good, props, fname(c, fn), "defer ServeNostrEnd", P.Pos(dEnd.Pos()),
 			"ServeNostrEnd is deferred right after a successful ServeNostrStart, before any other handler call and on every other exit",
 			"some exit after a successful ServeNostrStart is not covered by the deferred ServeNostrEnd (or a handler call precedes the defer)")
